@@ -153,3 +153,6 @@ def run(ctx):
         ctx.ob('4a link-range-checked %s' % fn, 'K3-guard', fn, 'a free-list link is compared (>=) with the fill mark and rejected as Corruption before it is followed', ok, 'corruption exits %s' % corr)
     # in-memory mirrors (free-entry stacks, ref-count cache) are derived from the files only after replay
     C02.replay_before_service(ctx, '5')
+    # 8. planning reads the links it follows (next free, next part) through the writer's own overlay before the file: a record planned
+    # before the previous one is applied must see what that one did to the chain
+    shared.file_reads_shadowed(ctx, '8')
